@@ -301,6 +301,11 @@ def SortedG (l : List Pair) : Prop := l.Pairwise (fun x y => x.g ≤ y.g)
 def StrictW (l : List Wire) : Prop := l.Pairwise (fun x y => x.g < y.g)
 def SortedW (l : List Wire) : Prop := l.Pairwise (fun x y => x.g ≤ y.g)
 
+instance : DecidablePred StrictG := fun l => by unfold StrictG; infer_instance
+instance : DecidablePred SortedG := fun l => by unfold SortedG; infer_instance
+instance : DecidablePred StrictW := fun l => by unfold StrictW; infer_instance
+instance : DecidablePred SortedW := fun l => by unfold SortedW; infer_instance
+
 /-- the remote index the local pair `p` gets: the attribute of the remote entry with the same global index
     (`fromSelf`: unless the attributes are equal) -/
 def joinOne (fromSelf : Bool) (rem : List Wire) (p : Pair) : Option RIdx :=
@@ -328,6 +333,7 @@ def System.Strict (sys : System) : Prop :=
 
 /-- keys of the map strictly ascending -/
 def RMap.SortedKeys (m : RMap) : Prop := m.Pairwise (fun a b => a.1 < b.1)
+instance : DecidablePred RMap.SortedKeys := fun m => by unfold RMap.SortedKeys; infer_instance
 
 /-- the hints of rank `p` name every other rank it shares a published index with -/
 def HintsCover (ign : Bool) (sys : System) (p : Nat) : Prop :=
@@ -337,5 +343,38 @@ def HintsCover (ign : Bool) (sys : System) (p : Nat) : Prop :=
 
 /-- the state of the index-set sequence numbers after a list of resizes -/
 def Seqs.applyAll (two : Bool) (s : Seqs) (evs : List Resize) : Seqs := evs.foldl (Seqs.apply two) s
+
+/-! ### vocabulary for the system-level theorems -/
+
+/-- the lists `unpackCreateRemote` builds, before the emptiness test -/
+def specLists (fs ign : Bool) (me other : RankData) : Lists :=
+  (join fs (me.srcPairs ign) (wire (other.dstPairs ign)), join fs (me.dstPairs ign) (wire (other.srcPairs ign)))
+
+def optLists (l : Lists) : Option Lists := if l.2.isEmpty && l.1.isEmpty then none else some l
+
+/-- the ranks whose messages rank `p` processes after its own -/
+def sources (sys : System) (p : Nat) (order : List Nat) : List Nat :=
+  if (nbIds (sys.rank p) p).isEmpty then ringOrder sys.P p else order
+
+/-- the processed ranks are other ranks of the communicator -/
+def ValidSources (sys : System) (p : Nat) (order : List Nat) : Prop :=
+  ∀ q ∈ sources sys p order, q < sys.P ∧ q ≠ p
+
+/-- the arrival order is a permutation of the hinted neighbours, which are ranks of the communicator -/
+def ValidOrder (sys : System) (p : Nat) (order : List Nat) : Prop :=
+  order.Perm (nbIds (sys.rank p) p) ∧ ∀ q ∈ nbIds (sys.rank p) p, q < sys.P
+
+/-- ring mode, or neighbour mode with hints that name every rank sharing a published index -/
+def GoodMode (ign : Bool) (sys : System) (p : Nat) (order : List Nat) : Prop :=
+  nbIds (sys.rank p) p = [] ∨ (ValidOrder sys p order ∧ HintsCover ign sys p)
+
+
+/-- remote index list strictly ascending in the global index of the local pair -/
+def StrictR (l : List RIdx) : Prop := l.Pairwise (fun x y => x.loc.g < y.loc.g)
+instance : DecidablePred StrictR := fun l => by unfold StrictR; infer_instance
+
+/-- the same system without neighbour hints (every rank in ring mode) -/
+def System.ring (sys : System) : System :=
+  { P := sys.P, rank := fun q => { sys.rank q with hints := [] } }
 
 end DV.C04
